@@ -883,4 +883,28 @@ theorem appendConfig_store_failure_adopts_nothing (cf : Cfg) (a : Acc) (id : Nat
     · exact ⟨_, by simpa using hw⟩
     · simp at hw
 
+
+/-- **C07: the configuration a leader adopts is the one it stored.**  After a successful
+    `appendConfigurationEntry` the server's latest configuration is carried by the configuration
+    entry its own log holds at the index it names. -/
+theorem appendConfig_adopts_what_it_stored (cf : Cfg) (a : Acc) (id : Nat) (ch : CF.Change) (c' : CF.Config)
+    (hs : Sorted a.d.log) (hn : CF.nextConfiguration a.v.latest a.v.latestIdx ch = some c') :
+    (appendConfig cf a id ch false).v.latest = c' ∧
+    (appendConfig cf a id ch false).v.latestIdx = lastIndex a.v + 1 ∧
+    getLog (appendConfig cf a id ch false).d.log (lastIndex a.v + 1) = some ⟨lastIndex a.v + 1, a.v.term, 5, 0, c'⟩ := by
+  unfold appendConfig
+  simp only [hn]
+  refine ⟨rfl, rfl, ?_⟩
+  show getLog (Write.apply (applyAll a.d (if cf.restoreCommitted then [Write.stage a.v.commit] else []))
+      (Write.storeLogs [⟨lastIndex a.v + 1, a.v.term, 5, 0, c'⟩])).log (lastIndex a.v + 1) = _
+  have hst : ∀ w ∈ (if cf.restoreCommitted then [Write.stage a.v.commit] else []), ∃ i, w = Write.stage i := by
+    intro w hw; split at hw
+    · exact ⟨_, by simpa using hw⟩
+    · simp at hw
+  have hs1 : Sorted (applyAll a.d (if cf.restoreCommitted then [Write.stage a.v.commit] else [])).log := by
+    rw [stage_log _ _ hst]; exact hs
+  have := getLog_storeAll [⟨lastIndex a.v + 1, a.v.term, 5, 0, c'⟩] _ hs1 (List.pairwise_singleton _ _) (lastIndex a.v + 1)
+  simpa [Write.apply] using this
+
+
 end SV
